@@ -26,6 +26,7 @@ package control
 // the previous one (no equal LRU stamps => runs are reproducible for a seed).
 
 import (
+	"encoding/binary"
 	"encoding/hex"
 	"errors"
 	"fmt"
@@ -178,38 +179,57 @@ func (o *c10Observer) takeCalls() string {
 		if c.nUpd > 1 || c.nDel > 1 || strings.Join(c.order, "") == "du" {
 			sb.WriteString("BAD-BATCH-ORDER")
 		}
-		var ups []string
-		for k, v := range c.ups {
-			ups = append(ups, hex.EncodeToString(k[:])+"="+c10Bits(v[:]))
-		}
-		sort.Strings(ups)
-		var dels []string
-		for _, k := range c.dels {
-			dels = append(dels, hex.EncodeToString(k[:]))
-		}
-		sort.Strings(dels)
-		o.stats.Add("emit.update_entries", len(ups))
-		o.stats.Add("emit.delete_entries", len(dels))
-		if len(ups) == 0 && len(dels) == 0 {
+		o.stats.Add("emit.update_entries", len(c.ups))
+		o.stats.Add("emit.delete_entries", len(c.dels))
+		if len(c.ups) == 0 && len(c.dels) == 0 {
 			o.stats.Inc("emit.empty_calls")
 		}
-		sb.WriteString("call(" + c10OwnerTok(c.owner) + "|u:" + strings.Join(ups, ",") + "|d:" + strings.Join(dels, ",") + ")")
+		sb.WriteString(fmt.Sprintf("call(%s|u:%d:%d|d:%d:%d)", c10OwnerTok(c.owner), len(c.ups), c10FpPairs(c.ups), len(c.dels), c10FpKeys(c.dels)))
 	}
 	return sb.String()
 }
 
-// fingerprint of the whole table (FNV-1a 64 of its canonical string), compared on every line
-func (o *c10Observer) tableFp() string {
-	h := uint64(14695981039346656037)
-	for _, b := range []byte(o.kernelStr()) {
-		h = (h ^ uint64(b)) * 1099511628211
+func c10Mix(h, x uint64) uint64 { return (h ^ x) * 1099511628211 }
+
+// FNV-1a style fingerprint over sorted (key, bitmap) pairs: low and high 64 bits of the key, then the 16
+// 64-bit limbs of the bitmap (same function in Main.lean)
+func c10FpPairs(m map[[16]byte][32]uint32) uint64 {
+	keys := make([][16]byte, 0, len(m))
+	for k := range m {
+		keys = append(keys, k)
 	}
+	sort.Slice(keys, func(i, j int) bool { return string(keys[i][:]) < string(keys[j][:]) })
+	h := uint64(14695981039346656037)
+	for _, k := range keys {
+		h = c10Mix(h, binary.BigEndian.Uint64(k[8:]))
+		h = c10Mix(h, binary.BigEndian.Uint64(k[:8]))
+		v := m[k]
+		for j := 0; j < 16; j++ {
+			h = c10Mix(h, uint64(v[2*j])|uint64(v[2*j+1])<<32)
+		}
+	}
+	return h
+}
+
+func c10FpKeys(ks [][16]byte) uint64 {
+	keys := append([][16]byte(nil), ks...)
+	sort.Slice(keys, func(i, j int) bool { return string(keys[i][:]) < string(keys[j][:]) })
+	h := uint64(14695981039346656037)
+	for _, k := range keys {
+		h = c10Mix(h, binary.BigEndian.Uint64(k[8:]))
+		h = c10Mix(h, binary.BigEndian.Uint64(k[:8]))
+	}
+	return h
+}
+
+// size and fingerprint of the whole table, compared on every line
+func (o *c10Observer) tableFp() string {
 	bad := ""
 	if o.badDelete {
 		o.badDelete = false
 		bad = " DELETE-OF-ABSENT-KEY"
 	}
-	return fmt.Sprintf("k=%d t=%d%s", len(o.shadow), h, bad)
+	return fmt.Sprintf("k=%d t=%d%s", len(o.shadow), c10FpPairs(o.shadow), bad)
 }
 
 func (o *c10Observer) kernelStr() string {
@@ -370,7 +390,11 @@ func (g *c10Gen) answers() []string {
 		n = 1
 	case x < 90:
 		n = g.r.Range(1, 5)
-	case x < 99:
+	case x < 96 || g.r.Chance(0.9):
+		if x < 96 {
+			n = g.r.Range(1, 5)
+			break
+		}
 		n = g.r.Range(6, 64) // CDN-sized RRsets
 		g.stats.Inc("gen.answers.large_6_64")
 	default:
@@ -510,7 +534,7 @@ func c10RunTrackerStream(t *testing.T, stats *VStats) {
 	g := &c10Gen{r: r, stats: stats}
 	histories := 400
 	if VThorough() {
-		histories = 16000
+		histories = 10000
 	}
 	for h := 0; h < histories; h++ {
 		core := c10NewCore()
@@ -1394,7 +1418,7 @@ func TestVerifC10(t *testing.T) {
 	g := &c10Gen{r: r, stats: stats}
 	histories := 300
 	if VThorough() {
-		histories = 12000
+		histories = 8000
 	}
 	for h := 0; h < histories; h++ {
 		scripted := h%4 == 3
